@@ -1235,3 +1235,140 @@ Section Composite.
     rewrite !agg_value_column by assumption. reflexivity.
   Qed.
 End Composite.
+
+(* ================================================================== *)
+(* Part 6: the corollaries phrased on the engine's own output           *)
+(* ================================================================== *)
+
+Section OnModel.
+  Hypothesis FL : FloatEqLaws.
+  Variables (cols : list string) (rows : list value) (gs : list group).
+  Hypothesis Hok : rows_ok cols rows = true.
+  Hypothesis Hgs : group_rows cols rows [] = Ok gs.
+
+  Lemma model_groups : gs = group_spec cols rows.
+  Proof. rewrite (group_rows_spec FL cols rows Hok) in Hgs. inversion Hgs. reflexivity. Qed.
+
+  Lemma model_perm : Permutation (List.concat (map snd gs)) rows.
+  Proof. rewrite model_groups. apply group_spec_perm; assumption. Qed.
+
+  Lemma model_count : list_sum (map (fun g => List.length (snd g)) gs) = List.length rows.
+  Proof. rewrite model_groups. apply group_spec_count; assumption. Qed.
+
+  Lemma model_exactly_one r :
+    In r rows ->
+    exists g, In g gs /\ In r (snd g) /\ forall g', In g' gs -> In r (snd g') -> g' = g.
+  Proof. rewrite model_groups. apply group_spec_exactly_one; assumption. Qed.
+
+  Lemma model_same_group_iff r1 r2 :
+    In r1 rows -> In r2 rows ->
+    ((exists g, In g gs /\ In r1 (snd g) /\ In r2 (snd g)) <->
+     key_eq (key_of cols r1) (key_of cols r2) = true).
+  Proof. rewrite model_groups. apply group_spec_same_group_iff; assumption. Qed.
+
+  Lemma model_keys_distinct : pairwise_distinct key_eq (map fst gs) /\ NoDup (map fst gs).
+  Proof.
+    rewrite model_groups. split; [apply group_spec_keys_distinct|apply group_spec_keys_NoDup, Hok].
+  Qed.
+
+  Lemma model_members g :
+    In g gs -> snd g = filter (fun r => key_eq (fst g) (key_of cols r)) rows.
+  Proof. rewrite model_groups. apply group_spec_members. Qed.
+
+  Lemma model_order : map fst gs = first_keys (key_of cols) key_eq rows.
+  Proof. rewrite model_groups. apply group_spec_order. Qed.
+
+  Lemma model_first_member g :
+    In g gs -> exists r rest, snd g = r :: rest /\ fst g = key_of cols r.
+  Proof. rewrite model_groups. apply group_spec_first_member; assumption. Qed.
+End OnModel.
+
+(* ---- no row passed WHERE: COUNT = 0, SUM / MIN / MAX / AVG = NULL ---- *)
+
+Definition agg_has_arg (it : sel_item stmt) : bool :=
+  match it with
+  | IExpr (EAgg ACount _) _ => true
+  | IExpr (EAgg _ (Some _)) _ => true
+  | _ => false
+  end.
+
+Definition empty_cell (it : sel_item stmt) : string * value :=
+  match it with
+  | IExpr (EAgg ACount _) name => (name, VNum 0%float)
+  | IExpr _ name => (name, VNull)
+  | IStar => ("*"%string, VNull)
+  end.
+
+Lemma concat_singletons {A B} (f : A -> B) l : List.concat (map (fun a => [f a]) l) = map f l.
+Proof. induction l as [|a l IH]; cbn; [reflexivity|]. f_equal. exact IH. Qed.
+
+Lemma agg_has_arg_is_agg items : forallb agg_has_arg items = true -> forallb is_agg_item items = true.
+Proof.
+  induction items as [|it items IH]; cbn [forallb]; intros H; [reflexivity|].
+  apply andb_true_iff in H. destruct H as [Hi Hs]. rewrite IH by exact Hs.
+  destruct it as [|e name]; [discriminate|]. destruct e; try discriminate. reflexivity.
+Qed.
+
+Lemma exec_select_whole_table_empty rec call join ctx s rows :
+  s_group s = [] -> s_items s <> [] -> forallb agg_has_arg (s_items s) = true ->
+  exec_select (mk_env rec call join ctx s []) s rows =
+  Ok [VObj (obj_of_list (map empty_cell (s_items s)))].
+Proof.
+  intros Hg Hne Ha.
+  assert (Hall : all_aggregate (s_items s) = true).
+  { unfold all_aggregate. destruct (s_items s) eqn:E; [congruence|].
+    apply agg_has_arg_is_agg. exact Ha. }
+  rewrite exec_select_whole_table by assumption.
+  assert (Hm : mapM (item_cells [] []) (s_items s) = Ok (map (fun it => [empty_cell it]) (s_items s))).
+  { clear Hne Hall. induction (s_items s) as [|it items IH]; [reflexivity|].
+    cbn [forallb] in Ha. apply andb_true_iff in Ha. destruct Ha as [Hi Hs].
+    cbn [mapM map]. rewrite IH by exact Hs.
+    destruct it as [|e name]; [discriminate|]. destruct e; try discriminate.
+    cbn [item_cells]. rewrite agg_value_empty.
+    destruct f, arg; try discriminate; reflexivity. }
+  rewrite Hm. cbn [bind]. rewrite concat_singletons. reflexivity.
+Qed.
+
+(* ---- the same inside a comparison (HAVING COUNT( * ) > 1): Expr evaluates the operands of a
+   comparison on a copy of the row that carries the back-reference marker "<-"; the members the
+   aggregate reads are still the group's ---- *)
+
+Lemma mk_env_agg_group_any rec call join ctx s filtered f arg cur ms :
+  s_group s <> [] -> lookup "*" cur = Some (VArr ms) ->
+  e_agg (mk_env rec call join ctx s filtered) f arg cur = eval_agg ms f arg.
+Proof.
+  intros H Hl. cbn [mk_env e_agg]. destruct (s_group s); [contradiction|]. rewrite Hl. reflexivity.
+Qed.
+
+Lemma lookup_star_scoped g d : lookup "*" (scope (group_row g) d) = Some (VArr (snd g)).
+Proof.
+  unfold scope. rewrite lookup_obj_set_other by discriminate. apply lookup_star_group_row.
+Qed.
+
+Lemma mk_env_agg_group_scoped rec call join ctx s filtered f arg g d :
+  s_group s <> [] ->
+  e_agg (mk_env rec call join ctx s filtered) f arg (scope (group_row g) d) = eval_agg (snd g) f arg.
+Proof. intros H. apply mk_env_agg_group_any; [exact H|apply lookup_star_scoped]. Qed.
+
+(* ---- what "order of first appearance" means: reading more rows only appends new keys ---- *)
+
+Lemma first_keys_from_app {R K} (key : R -> K) (keq : K -> K -> bool) pre post : forall seen,
+  first_keys_from key keq seen (pre ++ post) =
+  first_keys_from key keq seen pre ++
+  first_keys_from key keq (rev (first_keys_from key keq seen pre) ++ seen) post.
+Proof.
+  induction pre as [|r pre IH]; intros seen; cbn [app first_keys_from rev]; [reflexivity|].
+  destruct (existsb (fun k => keq k (key r)) seen); [apply IH|].
+  rewrite IH. cbn [app rev]. rewrite <- app_assoc. reflexivity.
+Qed.
+
+Lemma group_spec_prefix_stable cols pre post :
+  exists tail,
+    map fst (group_spec cols (pre ++ post)) = map fst (group_spec cols pre) ++ tail /\
+    forall k s, In k tail -> In s (map fst (group_spec cols pre)) -> key_eq s k = false.
+Proof.
+  rewrite !group_spec_order. unfold first_keys. rewrite first_keys_from_app. rewrite app_nil_r.
+  eexists. split; [reflexivity|].
+  intros k s Hk Hs. eapply first_keys_from_not_seen; [exact Hk|].
+  apply in_rev in Hs. exact Hs.
+Qed.
